@@ -46,7 +46,7 @@ def getCfg (j : Json) : Except String Cfg := do
     | "ignore" => pure OnOver.ignore
     | "subtract" => pure OnOver.subtract
     | _ => throw s!"bad policy {pol}"
-  pure ⟨q, ae, onOver, (quotaByName qn).isSome⟩
+  pure ⟨q, ae, onOver⟩
 
 def handle (op : String) (j : Json) : Option (Except String Json) :=
   match op with
